@@ -52,6 +52,23 @@ def replay_build(d, profile='debug'):
     return None
 
 
+def exact_tie_breaker(run):
+    """'Ties are resolved by exact arithmetic': the exact predicate of the ibig build computes the lifted determinant without overflow on the
+    whole grid and returns its sign (the obligations of C10.a, regenerated here because a tie-breaker that is wrong only on rare inputs -
+    tight clusters, exact ties - shows up as inconsistent local geometry, i.e. as a C05 failure)"""
+    from mirsym.interp import Unsupported
+    from . import insphere
+    try:
+        cands, P, code_det = insphere.check_backend(run, 'ibig', 'C05 exact tie-breaker', thorough=False)
+        insphere.confirm_and_report(run, 'C05', cands, 'C05 exact tie-breaker')
+    except Unsupported as e:
+        bad = insphere.native_vs_reference(run.seed, 3000)
+        if bad:
+            insphere.confirm_and_report(run, 'C05', bad[:3], 'C05 exact tie-breaker (encoding not buildable: %s)' % str(e)[:80])
+        else:
+            run.inconclusive.append('C05 exact tie-breaker: %s' % e)
+
+
 def check(run):
     funcs, info = engine.load_mir('ibig')
     run.mir_info.append(info)
@@ -59,6 +76,7 @@ def check(run):
     GR.cuboid(run, funcs, 'C05')
     GR.right_loc(run, funcs, 'C05')
     GR.build_loop(run, funcs, 'C05')
+    exact_tie_breaker(run)
     kanirun.run(run, 'C05', KANI_QUICK if run.tier == 'quick' else KANI_THOROUGH, jobs=12)
     known_findings(run)
     run.assume('bit-precise claim: positions in [A - W - h, A + 2W] as computed in f64; a mirror image that rounding pushes a few ulps above A + 2W is covered only by the real-arithmetic obligation (margin W/8)')
@@ -70,6 +88,9 @@ def replay(path):
     d = json.load(open(path))
     if d['kind'] == 'kani_playback':
         return kanirun.replay('C05', path)
+    if d['kind'] == 'insphere_exact':
+        from . import insphere
+        return insphere.replay_file(path)
     if d['kind'] == 'build':
         bad = replay_build(d)
         print(bad)
